@@ -35,21 +35,23 @@ def registry_std_dir():
 def tree_hash(repo=None):
     repo = repo or REPO
     h = hashlib.sha256()
-    files = []
+    files = []   # (name relative to its root, absolute path): the key does not depend on where the tree lives
     for root, dirs, fs in os.walk(repo):
         dirs[:] = [d for d in dirs if d not in ("target", ".git", "node_modules", "artifacts")]
         for f in fs:
             if f.endswith(".rs") or f in ("Cargo.toml", "Cargo.lock"):
-                files.append(os.path.join(root, f))
+                ap = os.path.join(root, f)
+                files.append(("repo/" + os.path.relpath(ap, repo), ap))
     reg = registry_std_dir()
     if reg:
         for root, dirs, fs in os.walk(reg):
             for f in fs:
                 if f.endswith(".rs") or f == "Cargo.toml":
-                    files.append(os.path.join(root, f))
+                    ap = os.path.join(root, f)
+                    files.append(("registry/" + os.path.relpath(ap, reg), ap))
     files.sort()
-    for f in files:
-        h.update(f.encode())
+    for name, f in files:
+        h.update(name.encode())
         h.update(b"\0")
         with open(f, "rb") as fh:
             h.update(fh.read())
@@ -170,7 +172,7 @@ def facts_dir(config="default", verbose=True):
         lockf.close()
 
 
-def _gc(keep_key, keep=4):
+def _gc(keep_key, keep=10):
     """Drop old fact caches (not the warm target dirs)."""
     ents = []
     for e in os.listdir(CACHE):
